@@ -602,6 +602,12 @@ def splice(body, contract, applied):
                     body, k = re.subn(a_, b_, body)
                     n += k
                 applied.append({'rule': 'R23', 'pattern': 'str methods -> shim trait methods with uninterpreted results', 'count': n})
+            elif arg.strip() == 'R28':
+                n = 0
+                for a_, b_ in ((r'\bu8::from_str\(', 'u8_from_str_v('), (r'\busize::from_str\(', 'usize_from_str_v('), (r'\.starts_with\(', '.starts_with_v('), (r'\.split_once\(', '.split_once_v(')):
+                    body, k = re.subn(a_, b_, body)
+                    n += k
+                applied.append({'rule': 'R28', 'pattern': 'FromStr for u8/usize, str::starts_with / split_once -> shim functions with uninterpreted results', 'count': n})
             elif arg.strip() == 'R19':
                 body, n = re.subn(r'\.try_into\(\)', '.try_into_v()', body)
                 applied.append({'rule': 'R19', 'pattern': 'slice.try_into() -> slice.try_into_v() (std slice-to-array TryFrom)', 'count': n})
